@@ -229,3 +229,25 @@ META["C17"] = {
     "LEVEL_NOTE": "Trusted: sim/randseam.py; the coefficient-table Jacobian in checks/c17.py.",
     "TECHNIQUE": "deterministic simulation with a scripted random source: complete sign-cube enumeration per call, key log over call sequences, argument corruption",
 }
+
+META["C12"] = {
+    "LEVEL": "exploration",
+    "TIERS": {"quick": 160, "thorough": 6000},
+    "WALLCAP": {"quick": 420, "thorough": 5400},
+    "RULE": ("One evaluation = one seeded smoother posterior from a simulated history (fixed grid / every-step fixed-interval, "
+             "fixed-point with checkpoints incl. coinciding ones, rejections in between), a dataset near the solution, noise "
+             "levels 1e-6..1e3 (per entry / per time / constant), coefficient index, averaging flag; the time-series and "
+             "terminal-value losses are compared with the Gaussian log-density computed in 50-digit arithmetic from the "
+             "posterior's embedded backward factorisation. Distinct = distinct (cell, history digest); non-trivial = >= 2 output times."),
+    "COMPONENTS": {"real": ["loss_lml_timeseries", "loss_lml_terminal_values", "MarkovSequence.evaluate_lml", "to_derivative",
+                            "bayes_rule_and_logpdf_tree", "smoother runs producing the posteriors"],
+                   "stub": ["history-forcing peers"], "seam": ["probdiffeq.backend.flow (Python-stepped)"]},
+    "PROBES": ["coinciding_output_times", "noise_free_initial_state", "std_below_1e-4"],
+    "ASSUMPTIONS": ["the loss is a function of (posterior, data): the simulator contributes history-shaped posteriors only",
+                    "joint law = the posterior's own backward factorisation embedded densely (C03 ties it to the reference RTS)",
+                    "tolerance 1e-7 + 1e-13*min(cond,1e8) relative to 1+|value|"],
+    "LEVEL_TEXT": "Seeded exploration over history-shaped posteriors, data and noise levels; the oracle is the joint Gaussian "
+                  "log-density in 50-digit arithmetic.",
+    "LEVEL_NOTE": "Trusted: sim/embed.py, mpmath Cholesky; end-of-run check (stated as such in DESIGN.md).",
+    "TECHNIQUE": "deterministic simulation (history-shaped posteriors from seeded accept/reject/checkpoint schedules) with an end-of-run joint-Gaussian oracle",
+}
